@@ -2,7 +2,7 @@
    (evaluated on the models), so none of them holds vacuously. *)
 From ZV.Common Require Import Base Run.
 From Coq Require Import Sorting.Sorted Sorting.Permutation.
-From ZV.C11 Require Import Model ModelMsd ModelAdv ModelPar ModelSkip ModelMultipass ModelFunnel ModelCases ProofsSpec.
+From ZV.C11 Require Import Model ModelMsd ModelAdv ModelPar ModelSkip ModelMultipass ModelFunnel ModelKv ModelCases ProofsSpec.
 Open Scope N_scope.
 
 Ltac sorted_by_eval := apply sortedb_Sorted; vm_compute; reflexivity.
@@ -112,3 +112,21 @@ Example co_sort_inhabited :
   co_segments 2 4 [12; 3; 9; 0; 7; 7; 1; 11; 5; 2; 10; 4; 6] = [[12; 3; 9; 0]; [7; 7; 1; 11]; [5; 2; 10; 4; 6]] /\
   co_sort 2 1024 64 [12; 3; 9; 0; 7; 7; 1; 11; 5; 2; 10; 4; 6] = [0; 1; 2; 3; 4; 5; 6; 7; 7; 9; 10; 11; 12].
 Proof. repeat split; vm_compute; reflexivity. Qed.
+
+(* duplicate keys keep their own values, in input order *)
+Example kv_sort_inhabited :
+  (0 < 4)%nat /\ Forall (fun p => fst p < 2 ^ 64) [(1, 10); (1, 11); (0, 12); (1, 13); (18446744073709551615, 14)] /\
+  kv_sort 4 [(1, 10); (1, 11); (0, 12); (1, 13); (18446744073709551615, 14)]
+    = Some [(0, 12); (1, 10); (1, 11); (1, 13); (18446744073709551615, 14)].
+Proof. split; [lia|]. split; [repeat constructor|vm_compute; reflexivity]. Qed.
+
+Example merge_tree_inhabited :
+  Forall (Sorted N.le) [[1; 4]; [0; 9]; [2]; []; [3; 3]] /\
+  merge_round [[1; 4]; [0; 9]; [2]; []; [3; 3]] = [[0; 1; 4; 9]; [2]; [3; 3]] /\
+  merge_tree [[1; 4]; [0; 9]; [2]; []; [3; 3]] = [0; 1; 2; 3; 3; 4; 9].
+Proof. split; [repeat (apply Forall_cons; [sorted_by_eval|]); apply Forall_nil|split; vm_compute; reflexivity]. Qed.
+
+Example vec_external_sort_inhabited :
+  (forall l, Sorted N.le (isort l) /\ Permutation l (isort l)) /\
+  vec_external_sort isort 8 16 [5; 2; 8; 1; 9] = [1; 2; 5; 8; 9] /\ vec_external_sort isort 8 64 [5; 2; 8; 1; 9] = [1; 2; 5; 8; 9].
+Proof. split; [intros l; split; [apply isort_sorted|apply isort_perm]|split; vm_compute; reflexivity]. Qed.
